@@ -48,6 +48,7 @@ struct EoNStateInner {
 
 pub(crate) struct EoNState {
     running: AtomicBool,
+    stopping: AtomicBool,
     bdseq: AtomicU8,
     inner: Mutex<EoNStateInner>,
     pub group_id: String,
@@ -187,6 +188,7 @@ impl NodeHandle {
         if !self.state.running.load(Ordering::SeqCst) {
             return;
         }
+        self.state.stopping.store(true, Ordering::SeqCst);
         info!("Edge node stopping. node={}", self.state.edge_node_id);
         let topic = NodeTopic::new(
             &self.state.group_id,
@@ -528,6 +530,10 @@ impl Node {
     }
 
     async fn on_online(&mut self) {
+        if self.state.stopping.load(Ordering::SeqCst) {
+            /* An Online that was still queued when the node was cancelled must not start a new session */
+            return;
+        }
         if self.state.online_swap(true) {
             return;
         }
@@ -685,6 +691,7 @@ impl EoN {
 
         let state = Arc::new(EoNState {
             running: AtomicBool::new(false),
+            stopping: AtomicBool::new(false),
             bdseq: AtomicU8::new(0),
             inner: Mutex::new(EoNStateInner {
                 seq: 0,
